@@ -11,6 +11,7 @@ import (
 	"sort"
 	"strings"
 	"testing"
+	"time"
 
 	connect "github.com/bufbuild/connect-go"
 	"google.golang.org/protobuf/proto"
@@ -170,9 +171,18 @@ func (ci countI) WrapStreamingHandler(next connect.StreamingHandlerFunc) connect
 }
 
 func c12Handler(kind Kind, codecs string, counts *c12Counts) *connect.Handler {
-	opts := []connect.HandlerOption{connect.WithInterceptors(countI{counts})}
+	// The counting interceptor sits in a second interceptor option behind a
+	// two-element one, and the same option values have already been applied by
+	// two other constructors - as generated code does with the options of a
+	// service: whatever the constructors do with the option values, the handler
+	// under test must run each interceptor once.
+	passes := 0
+	opts := []connect.HandlerOption{connect.WithInterceptors(passI{&passes}, passI{&passes}), connect.WithInterceptors(countI{counts})}
 	for _, n := range c12CodecSets[codecs] {
 		opts = append(opts, connect.WithCodec(namedCodec{n}))
+	}
+	for _, other := range []Kind{KUnary, KBidi} {
+		_ = NewHandler(other, func(context.Context, HStream) error { return nil }, opts...)
 	}
 	return NewHandler(kind, func(ctx context.Context, s HStream) error {
 		counts.user++
@@ -385,6 +395,61 @@ func c12SpecAgreement(t *testing.T, c *ev.Collector) {
 	}
 }
 
+// c12CtxEnds: an accepted POST whose context ends (cancel at the last byte of
+// the request body / deadline expiring during a slow upload) after dispatch:
+// the interceptors still run exactly once; so does the user code of streaming
+// handlers (a unary handler may answer the context's error without it).
+func c12CtxEnds(t *testing.T, c *ev.Collector) {
+	idx := 0
+	for _, p := range AllProtos {
+		for _, kind := range AllKinds {
+			for _, how := range []string{"cancel-at-last-byte", "deadline-during-upload"} {
+				idx++
+				if !ev.Mine(idx) {
+					continue
+				}
+				key := fmt.Sprintf("ctx-ends/%s/%s/%s", p, kind, how)
+				c.Case(key, true)
+				Bubble(t, func() {
+					counts := &c12Counts{}
+					h := c12Handler(kind, "default", counts)
+					ctx, cancel := context.WithCancel(context.Background())
+					defer cancel()
+					body := &endingReader{data: RawBody(p, kind, false, []byte{5})}
+					req := RawRequest(ctx, p, kind, false, body)
+					if how == "cancel-at-last-byte" {
+						body.atEnd = cancel
+					} else {
+						body.pause = 200 * time.Millisecond
+						if p == PConnect {
+							req.Header.Set("Connect-Timeout-Ms", "50")
+						} else {
+							req.Header.Set("Grpc-Timeout", "50m")
+						}
+					}
+					rec := httptest.NewRecorder()
+					g := GuardedFor(time.Hour, func() { h.ServeHTTP(rec, req) })
+					c.AddTransitions(3)
+					c.AddStates(3)
+					c.AddTraces(1)
+					tags := []string{"kind=" + kind.String(), "proto=" + p.String(), "ctx-ends-during-request"}
+					switch {
+					case g.Hung || g.Panicked:
+						c.Violation("TestC12", "terminates", "hang-or-panic", tags, key, "%s: hung=%v panic=%v", key, g.Hung, g.Panic)
+						c.Outcome("violation")
+						BailIfStuck(c, g)
+					case counts.icept != 1 || counts.user > 1 || (kind != KUnary && counts.user != 1):
+						c.Violation("TestC12", "accepted-runs-once", fmt.Sprintf("user=%d,icept=%d", counts.user, counts.icept), tags, key, "%s: accepted request ran user code %d times and interceptors %d times (status %d)", key, counts.user, counts.icept, rec.Code)
+						c.Outcome("violation")
+					default:
+						c.Outcome("served")
+					}
+				})
+			}
+		}
+	}
+}
+
 func TestC12(t *testing.T) {
 	c := ev.New("C12")
 	defer func() { _ = c.Finish() }()
@@ -394,6 +459,7 @@ func TestC12(t *testing.T) {
 		var k c12Case
 		if _, err := ev.LoadReplay(&k); err != nil {
 			c12SpecAgreement(t, c)
+			c12CtxEnds(t, c)
 			return
 		}
 		Bubble(t, func() { c12Check(c, k) })
@@ -432,5 +498,6 @@ func TestC12(t *testing.T) {
 		}
 	}
 	c12SpecAgreement(t, c)
+	c12CtxEnds(t, c)
 	_ = io.EOF
 }
